@@ -22,6 +22,7 @@ from harness.core import VERIF, Ctx, guarded, pmap
 
 MAGS = [257, 1000, 65537, 10 ** 6, 2 ** 31, 10 ** 9, 10 ** 9 + 7, 2 ** 44 + 1, 10 ** 12, 10 ** 15, 2 ** 53 - 1]
 DEMAND_FORMS = ["list", "tuple", "range"]
+JUDGED_MAGS = [257, 300, 1000, 4097, 65537, 10 ** 5, 2 ** 18, 3 * 10 ** 5]
 
 
 # ---------------------------------------------------------------------------------- L / A: duplicate columns
@@ -124,8 +125,9 @@ def gen_perfect_cs(rng, n=None, width=None, mags=None, family="magnitude"):
     chosen = rng.sample(pats, k)
     mults = [rng.choice(mags or MAGS) + rng.choice([0, 0, 1, -1]) for _ in chosen]
     demands = [sum(c * p[i] for c, p in zip(mults, chosen)) for i in range(n_)]
-    if max(demands) > 2 ** 53 - 1:      # the tableau holds demands as floats: beyond 2^53 they are not exact (documented limit)
-        scale = max(demands) // (2 ** 53 - 1) + 1
+    dmax = 2 * 10 ** 6 if mags is JUDGED_MAGS else 2 ** 53 - 1   # floats: beyond 2^53 demands are not even representable
+    if max(demands) > dmax:
+        scale = max(demands) // dmax + 1
         mults = [max(1, c // scale) for c in mults]
         demands = [sum(c * p[i] for c, p in zip(mults, chosen)) for i in range(n_)]
     solver = rng.choice(["cg", "bp"])
@@ -137,10 +139,10 @@ def gen_perfect_cs(rng, n=None, width=None, mags=None, family="magnitude"):
     return case
 
 
-def gen_single_type(rng):
+def gen_single_type(rng, mags):
     width = rng.choice([3, 7, 10, 12, 100])
     size = rng.randint(1, width)
-    d = rng.choice(MAGS) + rng.choice([0, 1, -1])
+    d = rng.choice(mags) + rng.choice([0, 1, -1])
     k = width // size
     solver = rng.choice(["cg", "bp"])
     case = {"kind": "cs", "solver": solver, "sizes": [size], "width": width, "demands": [d], "max_iter": rng.choice([0, 1, 30, None]),
@@ -169,6 +171,10 @@ def gen_perfect_custom(rng, m=None, mags=None, family="magnitude"):
     chosen = rng.sample(cols, k)
     mults = [rng.choice(mags or MAGS[:9]) + rng.choice([0, 1, -1]) for _ in chosen]
     demands = [sum(c * p[i] for c, p in zip(mults, chosen)) for i in range(m_)]
+    if mags is JUDGED_MAGS and max(demands) > 2 * 10 ** 6:
+        scale = max(demands) // (2 * 10 ** 6) + 1
+        mults = [max(1, c // scale) for c in mults]
+        demands = [sum(c * p[i] for c, p in zip(mults, chosen)) for i in range(m_)]
     # initial columns: T * unit vectors keep the restricted master feasible (they have entry sum T as well)
     init = [tuple(T if j == i else 0 for j in range(m_)) for i in range(m_)]
     for c in init:
@@ -280,10 +286,12 @@ def gen_options(rng, gen_cs, gen_custom):
 
 
 def _mark(case):
-    """Magnitudes above 2*10^6 are judged by the by-construction oracle only: the code's tolerances are absolute (eps = 1e-9), so
-    beyond that the float run may legitimately leave the exact-arithmetic model."""
-    if max(case["demands"], default=0) > 2 * 10 ** 6:
+    """Judged magnitudes: optimum <= 2^20 and demands <= 2*10^6 (also replayed in the exact-arithmetic model).  Anything larger is
+    observation-only (the code's tolerances are absolute, eps = 1e-9, on a float tableau): run and classified, never judged."""
+    if max(case["demands"], default=0) > 2 * 10 ** 6 or case.get("opt_known", 0) > 2 ** 20:
         case["no_coq"] = True
+        case["observe_only"] = True
+        case["family"] = "magnitude_observed"
     return case
 
 
@@ -297,10 +305,12 @@ def extra_cases(ctx: Ctx):
     cases += [gen_dup_dominant(rng) for _ in range(80 * k)]
     cases += [gen_dup_random(rng, gen_custom) for _ in range(50 * k)]
     cases += [with_form(rng, gen_cs(rng)) for _ in range(50 * k)] + [with_form(rng, gen_custom(rng)) for _ in range(50 * k)]
-    cases += [_mark(gen_single_type(rng)) for _ in range(40 * k)]
-    cases += [_mark(gen_perfect_cs(rng)) for _ in range(60 * k)] + [_mark(gen_perfect_custom(rng)) for _ in range(50 * k)]
-    cases += [_mark(gen_perfect_cs(rng, mags=[257, 300, 1000, 65537, 10 ** 6])) for _ in range(30 * k)]
-    cases += [_mark(gen_perfect_custom(rng, mags=[257, 300, 1000, 65537, 10 ** 6])) for _ in range(30 * k)]
+    cases += [_mark(gen_single_type(rng, JUDGED_MAGS + [10 ** 6])) for _ in range(40 * k)]
+    cases += [_mark(gen_perfect_cs(rng, mags=JUDGED_MAGS)) for _ in range(60 * k)]
+    cases += [_mark(gen_perfect_custom(rng, mags=JUDGED_MAGS)) for _ in range(50 * k)]
+    # observation only: demands up to 2^53 - 1
+    cases += [_mark(gen_single_type(rng, MAGS[5:])) for _ in range(15 * k)] + [_mark(gen_perfect_cs(rng, mags=MAGS[5:])) for _ in range(25 * k)]
+    cases += [_mark(gen_perfect_custom(rng, mags=MAGS[5:9])) for _ in range(20 * k)]
     cases += [gen_options(rng, gen_cs, gen_custom) for _ in range(120 * k)]
     cases += sweeps(rng, gen_cs, gen_custom, 2 * k)
     # S: a few large structured instances (oracle by construction; not replayed in the model)
@@ -528,7 +538,7 @@ def run_part(ctx: Ctx):
                 ctx.count("bp_event", e)
                 if e not in seen:
                     seen[e] = _strip_case(c)
-            if bad and not _known(c, out):
+            if bad:
                 if len(ctx.violations) < 3:
                     from harness.props.C17 import _work, shrink
                     c2, o2, b2 = _work(shrink(c))
@@ -543,10 +553,6 @@ def run_part(ctx: Ctx):
                     ctx.count("bp_event", "dup_both_positive&tree_improved")
                     conj_cases.append(_strip_case(c))
                 pool.append((len(ev) + conj, _strip_case(c)))
-
-    def _known(c, out):
-        from harness.props.C17 import _in_gap_tol_class
-        return _in_gap_tol_class(c, out)
 
     absorb(pmap(_event_work, seeds))
     rounds = 6 if thorough else 3
